@@ -164,3 +164,79 @@ Proof.
   - rewrite no_exists_forall. reflexivity.
   - rewrite no_exists_forall. reflexivity.
 Qed.
+
+(* ---- the set algebra ------------------------------------------------------------------------------------------ *)
+From Boltons Require Import Proofs.C11_Sets Proofs.C11_Refine.
+
+Lemma not_exists_not {A} (f : A -> bool) l : negb (existsb (fun o => negb (f o)) l) = forallb f l.
+Proof. induction l as [|x l IH]; simpl; [reflexivity|]. destruct (f x); simpl; [exact IH|reflexivity]. Qed.
+
+Theorem source_union s os : src_union s os = m_union s os.
+Proof. reflexivity. Qed.
+
+Theorem source_intersection s os : src_intersection s os = m_intersection s os.
+Proof.
+  unfold src_intersection, m_intersection, src_iter_intersection.
+  destruct os as [|o [|o2 t]]; cbn [length Nat.eqb nth]; try reflexivity;
+    (f_equal; apply filter_ext; intros k; apply not_exists_not).
+Qed.
+
+Theorem source_difference s os : src_difference s os = m_difference s os.
+Proof.
+  unfold src_difference, m_difference, src_iter_difference.
+  destruct os as [|o [|o2 t]]; cbn [length Nat.eqb nth]; reflexivity.
+Qed.
+
+Theorem source_symmetric_difference s o : src_symmetric_difference s [o] = m_symmetric_difference s o.
+Proof.
+  unfold src_symmetric_difference, m_symmetric_difference. cbv zeta.
+  rewrite source_union, source_intersection, source_difference. reflexivity.
+Qed.
+
+Theorem source_rsub s o : src_rsub s o = sort_nat (filter (fun x => negb (m_contains s x)) (o_elems o)).
+Proof. reflexivity. Qed.
+
+Lemma fold_adds l : forall s, fold_left (fun self o => fst (src_add self o)) l s = fold_left m_add l s.
+Proof. induction l as [|x l IH]; intros s; simpl; [reflexivity|]. rewrite source_add. apply IH. Qed.
+
+Theorem source_update s os : src_update s os = m_update s os.
+Proof.
+  unfold src_update, m_update. destruct os as [|o [|o2 t]]; cbn [is_nonempty negb length Nat.eqb nth]; cbv zeta;
+    try reflexivity; apply fold_adds.
+Qed.
+
+Lemma fold_discards D : forall s, Inv s ->
+  fold_left (fun self val => fst (src_discard self val)) D s = discard_all gen_cfg s D.
+Proof.
+  unfold discard_all. induction D as [|x D IH]; intros s H; simpl; [reflexivity|].
+  rewrite (source_discard s x (proj1 H)). cbn [fst]. apply IH. apply (discard_inv gen_cfg s x H).
+Qed.
+
+Theorem source_intersection_update s os : Inv s -> src_intersection_update s os = m_intersection_update gen_cfg s os.
+Proof.
+  intros H. unfold src_intersection_update, m_intersection_update. cbv zeta.
+  rewrite source_intersection, source_difference. apply fold_discards. exact H.
+Qed.
+
+Theorem source_difference_update s os : Inv s -> src_difference_update s os = m_difference_update gen_cfg s os.
+Proof.
+  intros H. unfold src_difference_update, m_difference_update. cbv zeta.
+  rewrite source_clear. cbn [fst].
+  assert (H0 : Inv (if existsb (eq_self s) os then m_clear s else s)).
+  { destruct (existsb (eq_self s) os); [apply Inv_empty|exact H]. }
+  revert H0. generalize (if existsb (eq_self s) os then m_clear s else s). clear H.
+  induction os as [|o os IH]; intros st H; simpl; [reflexivity|].
+  rewrite source_intersection, (fold_discards _ st H). apply IH.
+  apply (discard_all_inv gen_cfg _ st H).
+Qed.
+
+Theorem source_symmetric_difference_update s o : Inv s ->
+  src_symmetric_difference_update s o = m_symmetric_difference_update gen_cfg s o.
+Proof.
+  intros H. unfold src_symmetric_difference_update, m_symmetric_difference_update, py_same_object. cbv zeta.
+  generalize (m_live (m_from_list (o_elems o))). intros l. revert s H.
+  induction l as [|v l IH]; intros s H; simpl; [reflexivity|].
+  unfold m_contains. destruct (d_mem (imap s) v) eqn:M.
+  - rewrite (source_discard s v (proj1 H)). cbn [fst]. apply IH. apply (discard_inv gen_cfg s v H).
+  - rewrite source_add. cbn [fst]. apply IH. apply (add_inv s v H).
+Qed.
